@@ -349,6 +349,10 @@ func parseVUI(reader *bits.EBSPReader, parseVUIBeyondAspectRatio bool) *VUIParam
 func parseHrdParameters(r *bits.EBSPReader) *HrdParameters {
 	hp := &HrdParameters{}
 	hp.CpbCountMinus1 = r.ReadExpGolomb()
+	if hp.CpbCountMinus1 > 31 { // Range 0..31 according to ISO/IEC 14496-10 Section E.2.2
+		r.SetError(fmt.Errorf("cpb_cnt_minus1 %d > 31", hp.CpbCountMinus1))
+		return hp
+	}
 
 	hp.BitRateScale = r.Read(4)
 	hp.CpbSizeScale = r.Read(4)
